@@ -11,7 +11,7 @@ Definition put_optbytes (o : option (list N)) : list Z :=
 Definition put_item (d : ditem) : list Z :=
   match d with
   | DRaw b => 0 :: put_bytes b
-  | DTemp b => 1 :: put_bytes b
+  | DTemp b => 1 :: put_bytes b ++ [if Nat.ltb (length b) 3 then 0 else temp_centi b]
   | DBatt b => 2 :: put_bytes b
   | DUrl t b => 3 :: put_bytes t ++ put_bytes b
   end.
@@ -59,6 +59,7 @@ Fixpoint ble_ops (fuel : nat) (ops : list Z) (s : bst) : list Z :=
                        end
       | None => [-3]
       end
+    | 12 :: c :: t => continue (0 :: put_bytes (temp_encode c)) s t
     | 11 :: t => let '(o, s') := ble_read s in
                  continue (match o with None => [0; 0] | Some e => 0 :: 1 :: put_elem e end) s' t
     | _ => [-3]
